@@ -282,8 +282,12 @@ pub fn run_check(prop: &Prop, tier: Tier) -> i32 {
         // stable order: by unit order
         let mut nfile = 0;
         for u in &prop.units {
-            for v in merged[&u.name].violations.iter().take(2) {
-                if nfile >= 40 {
+            if merged[&u.name].violations_total > 0 {
+                let first = merged[&u.name].violations.first().map(|v| v.what.clone()).unwrap_or_default();
+                println!("  unit-summary unit={} violations={} first={}", u.name, merged[&u.name].violations_total, first);
+            }
+            for v in merged[&u.name].violations.iter().take(1) {
+                if nfile >= 60 {
                     break;
                 }
                 let path = vd.join("replays").join(format!("{}-{}.json", prop.id, nfile));
